@@ -112,6 +112,26 @@ fn cases(nmax: usize, quick: bool) -> Vec<Case> {
             out.push(Case { level: lvl, g: GrammarSpec::Json(st.clone()), prefix: b"\"".to_vec(), units, sep: vec![], suffix: b"\"".to_vec(), m, n });
         }
     }
+    // counted constructs in a grammar that is compiled AFTER another grammar of the same document (nested
+    // %json / %lark inside a Lark parent): the parent's options (allow_invalid_utf8 = byte-mode regexes) must not
+    // leak into the nested grammar, whose lengths are still counted in characters
+    for n in 0..=5usize {
+        for m in 0..=n {
+            for (oi, opt) in ["", "%llguidance {\"allow_invalid_utf8\": true}\n"].iter().enumerate() {
+                if oi == 0 && (m + n) % 3 != 0 {
+                    continue;
+                }
+                let st = json!({"type": "string", "minLength": m, "maxLength": n});
+                let unit_sets: Vec<Vec<Vec<u8>>> = vec![vec!["é".as_bytes().to_vec()], vec![b"a".to_vec(), "😀".as_bytes().to_vec(), "é".as_bytes().to_vec()]];
+                for units in unit_sets {
+                    out.push(Case { level: if oi == 0 { "nested-json-length" } else { "nested-json-length-after-byte-mode-parent" }, g: GrammarSpec::Lark(format!("{opt}start: \"<\" j \">\"\nj: %json {st}")), prefix: b"<\"".to_vec(), units: units.clone(), sep: vec![], suffix: b"\">".to_vec(), m, n: Some(n) });
+                    if n > 0 {
+                        out.push(Case { level: if oi == 0 { "nested-lark-regex" } else { "nested-lark-regex-after-byte-mode-parent" }, g: GrammarSpec::Lark(format!("{opt}start: \"<\" j \">\"\nj: %lark {{\nstart: /[^>]{{{m},{n}}}/\n}}")), prefix: b"<".to_vec(), units, sep: vec![], suffix: b">".to_vec(), m, n: Some(n) });
+                    }
+                }
+            }
+        }
+    }
     // minItems / maxItems next to prefixItems (items a schema or false): the tuple part counts too
     for p in 1..=3usize {
         for items_false in [false, true] {
